@@ -500,10 +500,18 @@ def cargo_toml(p, rng=None):
     return "\n".join(lines)
 
 
+def file_ext(p, fmt, ns, l):
+    """YAML files may be named `.yaml` or `.yml`: projects carrying `yml` (a set of (namespace, locale)) use the second for those"""
+    if fmt == "yaml" and (ns, l) in (p.get("yml") or ()):
+        return "yml"
+    return EXT[fmt]
+
+
 def file_list(p, fmt="json"):
     out = []
     for (ns, l), tree in p["files"].items():
-        rel = f"locales/{l}/{ns}.{EXT[fmt]}" if ns else f"locales/{l}.{EXT[fmt]}"
+        ext = file_ext(p, fmt, ns, l)
+        rel = f"locales/{l}/{ns}.{ext}" if ns else f"locales/{l}.{ext}"
         out.append([rel, emit_file(tree, fmt)])
     return sorted(out)
 
